@@ -519,7 +519,11 @@ def case_personalize(chk, env, name, seed, algos):
     n = rng.choice([3, 4])
     ids = rng.sample(all_ids, n)
     keep = rng.sample(ids, rng.choice([1, 2]))
+    ids = [i for i in ids if i not in keep] + [i for i in ids if i in keep]     # the kept individuals come after the others
     dfp = perturb_others(env, name, df, set(keep), seed)
+    # the other individuals reduced to their first visit only (another way of changing what is observed for them)
+    first_rows = df.groupby("ID", sort=False).head(1).index
+    dfs = df[df["ID"].isin(keep) | df.index.isin(first_rows)]
     perm = list(range(n))
     while perm == list(range(n)):
         rng.shuffle(perm)
@@ -530,6 +534,12 @@ def case_personalize(chk, env, name, seed, algos):
         try:
             base, tp = personalize(env, name, df, ids, algo_name, seed, **kw)
             pert, _ = personalize(env, name, dfp, ids, algo_name, seed, **kw)
+            single = None
+            if algo_name == "scipy_minimize":
+                try:
+                    single, _ = personalize(env, name, dfs, ids, algo_name, seed, **kw)
+                except Exception:  # noqa  (a one-visit cohort member may be refused by the data layer for some kinds: skip)
+                    single = None
             tape = tp.rec
             if not tape:
                 tape, tr = None, None
@@ -557,6 +567,11 @@ def case_personalize(chk, env, name, seed, algos):
                 if base[i] != pert.get(i):
                     fails.append(f"(i) {algo_name}: parameters of {i} changed ({base[i]} -> {pert.get(i)}) when only the data of other "
                                  f"individuals were replaced (same seed)")
+            if single is not None:
+                for i in keep:
+                    if base[i] != single.get(i):
+                        fails.append(f"(i) {algo_name}: parameters of {i} changed ({base[i]} -> {single.get(i)}) when the other individuals "
+                                     f"(listed before it) were reduced to a single visit (same seed)")
             if any(base[i] != pert.get(i) for i in ids if i not in keep) is False:
                 chk.tag("degenerate", "perturbation-without-effect-on-others")
             for i in ids:
